@@ -281,7 +281,7 @@ def run_shard(ctx):
 
 def plan(check, tier, seed, tp):
     jobs = []
-    hss = {'quick': [0, 1, 2, 3], 'thorough': list(range(24))}[tier]
+    hss = {'quick': [0, 1, 2, 3], 'thorough': list(range(12))}[tier]
     nparts = 4
     # the same program list is evaluated in a different order in some processes: a value that depends
     # on what was built before it (in that process) shows up as a fingerprint difference across jobs
